@@ -55,7 +55,7 @@ def run(ctx):
     built = []
     for ver, pfx, a, s in objs:
         ctx.nontrivial((ver, s))
-        o, e = obs.construct(ver, s)
+        o, e = obs.construct(ver, s, warm=True)
         rp = {"kind": "single", "ver": ver, "s": s, "assignment": a, "prefix": pfx}
         if o is None:
             ctx.violation("v%s:valid-vector-rejected" % ver, "accepted vector rejected", s, "accepted", e, replay=rp)
@@ -75,7 +75,7 @@ def run(ctx):
         if cn != want_body:
             ctx.violation("v%s:clean-noprefix" % ver, "clean_vector(output_prefix=False) is not the clean vector without prefix",
                           s, want_body, cn, replay=rp)
-        o2, e2 = obs.construct(ver, c)
+        o2, e2 = obs.construct(ver, c, warm=True)
         if o2 is None:
             ctx.violation("v%s:clean-does-not-reparse" % ver, "re-parsing the clean vector fails", s, "accepted", e2, replay=rp)
         else:
@@ -126,7 +126,7 @@ def run(ctx):
         ctx.nontrivial(("pair", x[0], x[3], y[0], y[3]))
         ver, pfx, a, s, o = x
         v2_, p2, b, t = y
-        p, e = obs.construct(v2_, t)
+        p, e = obs.construct(v2_, t, warm=True)
         rp = {"kind": "pair", "a": [ver, s], "b": [v2_, t]}
         if p is None:
             ctx.violation("v%s:valid-vector-rejected" % v2_, "accepted vector rejected", t, "accepted", e, replay=rp)
@@ -177,8 +177,8 @@ def replay(data):
     r = data["replay"]
     if r["kind"] == "pair":
         (va, a), (vb, b) = r["a"], r["b"]
-        oa, _ = obs.construct(va, a)
-        ob, _ = obs.construct(vb, b)
+        oa, _ = obs.construct(va, a, warm=True)
+        ob, _ = obs.construct(vb, b, warm=True)
         if oa is None or ob is None:
             return False, "rejected"
         msg = "a=%s(%r) b=%s(%r): a==b %s, hash equal %s, clean %r / %r; expected %r" % (
@@ -187,10 +187,10 @@ def replay(data):
         ok = (oa == ob) == exp if isinstance(exp, bool) else False
         return ok, msg
     ver, s = r["ver"], r["s"]
-    o, e = obs.construct(ver, s)
+    o, e = obs.construct(ver, s, warm=True)
     if o is None:
         return False, "CVSS%s(%r) rejected: %s" % (ver, s, e)
     c = o.clean_vector()
-    o2, e2 = obs.construct(ver, c)
+    o2, e2 = obs.construct(ver, c, warm=True)
     ok = c == data.get("expected") if isinstance(data.get("expected"), str) else (o2 is not None and o2 == o and o2.scores() == o.scores())
     return ok, "CVSS%s(%r).clean_vector()=%r; re-parse %s" % (ver, s, c, "ok" if o2 is not None else e2)
